@@ -100,6 +100,20 @@ def gen(seed, tier):
                 ops.append('F')
         ops += ['A', 'F', rep(), rep(), 'F']
         cases.append(cfg + ' | ' + ' ; '.join(ops))
+    # a run-time SetMode to listen-only and back while frames wait in the queue: frames whose send was reported successful still leave, in
+    # order, once (the queue is not part of the mode; seed C11-18) - sends made while listen-only are refused and queue nothing
+    for _ in range(16 if not thorough else 300):
+        ndev = r.choice([1, 2])
+        mode = r.choice([1, 2])
+        cfg = 'NODE mode=%d ndev=%d src=30 q=%d t0=5000 tx0=129029' % (mode, ndev, r.choice([3, 5, 8, 40]))
+        ops = ['A ' + ''.join(r.choice('0001') for _ in range(r.choice([2, 6, 12])))]
+        for _k in range(r.randint(1, 3)):
+            ops.append(smsg(r, r.randrange(ndev), r.choice(SINGLE + FAST), r.choice([8, 9, 20])))
+        ops.append('M 0 30')
+        for _k in range(r.randint(0, 2)):
+            ops.append(r.choice(['F', smsg(r, 0, r.choice(SINGLE), 8)]))
+        ops += ['A ' + ''.join(r.choice('01') for _ in range(r.choice([0, 2, 5]))), 'F', 'M %d 30' % mode, smsg(r, 0, r.choice(FAST), 20), 'A', 'F', 'F']
+        cases.append(cfg + ' | ' + ' ; '.join(ops))
     cases += large_queue_cases(r, thorough)
     return cases
 
@@ -115,6 +129,7 @@ def oracle(case, res):
     pending = []
     answers = []
     seq = {}
+    mode = cfg['mode']
 
     def nxt():
         return answers.pop(0) if answers else True
@@ -138,6 +153,10 @@ def oracle(case, res):
         elif o[0] == 'F':
             if q > 0:
                 flush(exp)
+        elif o[0] == 'M':
+            mode = int(o[1])               # run-time SetMode (the cases keep the source address): the queue is untouched
+        elif o[0] == 'S' and mode == 0:
+            exp.append(('res', False))     # listen-only: refused, nothing queued, nothing flushed
         elif o[0] == 'S':
             idev, pri, pgn = int(o[1]), int(o[2]), int(o[3])
             data = list(bytes.fromhex(o[7])) if o[7] != '-' else []
